@@ -1230,7 +1230,7 @@ fn gen_ranges(g: &mut Gen) {
         }
     }
     // two and three dimensions: random boundary picks, `None` entries, named subsets
-    let rounds = if g.thorough { 1500 } else { 350 };
+    let rounds = if g.thorough { 12000 } else { 600 };
     for _ in 0..rounds {
         let d = g.rng.range(2, 3);
         let lens: Vec<usize> = (0..d).map(|_| g.rng.range(1, 4)).collect();
@@ -1446,7 +1446,7 @@ fn gen_adaptors(g: &mut Gen) {
         }
     }
     // depth two and three: adaptors over adaptors
-    let rounds = if g.thorough { 600 } else { 150 };
+    let rounds = if g.thorough { 6000 } else { 300 };
     for _ in 0..rounds {
         let lens: Vec<usize> = vec![g.rng.range(1, 3), g.rng.range(1, 3)];
         g.op(format!("@ tensor {}", show_shape(&named_shape(&lens))));
